@@ -80,12 +80,16 @@ def run(ctx):
     # 2. code -> spec: seeded random histories (both handle allocators, both
     #    normalizers, hidden-files matcher on/off, paginated listings
     #    interleaved with mutations, removed directories kept in use)
-    out = _drive(ctx, binary, "TestRandom", "rand",
-                 {"VERIF_N": 48 if quick else 320, "VERIF_STEPS": 60 if quick else 100})
-    _validate(ctx, out, "random")
-    ctx.cov["samples"] += vlib.sample_lines(out + "/trace.ndjson", 3, maxlen=600)
-    if ctx.violations:
-        return _finish(ctx, extra)  # a violation was found: the later stages cannot change the verdict
+    batches = 1 if quick else 4
+    for b in range(batches):
+        n = 48 if quick else 80
+        out = _drive(ctx, binary, "TestRandom", "rand%d" % b,
+                     {"VERIF_N": n, "VERIF_FIRST": b * n, "VERIF_STEPS": 60 if quick else 100})
+        _validate(ctx, out, "random%d" % b)
+        if b == 0:
+            ctx.cov["samples"] += vlib.sample_lines(out + "/trace.ndjson", 3, maxlen=600)
+        if ctx.violations:
+            return _finish(ctx, extra)  # a violation was found: the later stages cannot change the verdict
 
     # 3. every call from several seed states, and all sequences of two
     #    calls (quick: a seed-dependent quarter of the first calls)
@@ -95,6 +99,13 @@ def run(ctx):
     extra["enumeration"] = json.load(open(out2 + "/meta.json"))
     if ctx.violations:
         return _finish(ctx, extra)
+    if not quick:
+        # all single calls with the hidden name included
+        out2w = _drive(ctx, binary, "TestEnumerate", "enumwide", {"VERIF_DEPTH": 1, "VERIF_WIDE": 1})
+        _validate(ctx, out2w, "enumwide")
+        extra["enumeration_wide"] = json.load(open(out2w + "/meta.json"))
+        if ctx.violations:
+            return _finish(ctx, extra)
 
     # 4. spec -> code: behaviours generated from the specification are
     #    replayed on the real hierarchy and validated like any other trace
